@@ -1,6 +1,7 @@
 package eng
 
 import (
+	"os"
 	"fmt"
 	"go/ast"
 	"go/token"
@@ -90,6 +91,7 @@ type modNote struct {
 }
 
 type dryRun struct {
+	depth  int
 	parent *dryRun
 	li     *loopInfo
 	fr     *frame
@@ -277,9 +279,10 @@ func (e *Engine) loopEnter(fr *frame, li *loopInfo, pred *ssa.BasicBlock, st *St
 	ms := &modSet{keys: map[string]bool{}}
 	baseRgn := e.nextRgn
 	for iter := 0; iter < 5; iter++ {
+		startID := len(c.terms)
 		stD := st.clone()
 		frD := fr.clone()
-		d := &dryRun{parent: fr.dry, li: li, baseRgn: baseRgn}
+		d := &dryRun{parent: fr.dry, li: li, baseRgn: baseRgn, depth: fr.depth}
 		frD.dry = d
 		fresh := map[*Term]bool{}
 		for _, ph := range phis {
@@ -325,7 +328,8 @@ func (e *Engine) loopEnter(fr *frame, li *loopInfo, pred *ssa.BasicBlock, st *St
 				}
 				continue
 			}
-			if n.level == 0 && Mentions(n.O, fresh) {
+			if n.level == 0 && (Mentions(n.O, fresh) || mentionsNewVar(n.O, startID)) {
+				// the offset depends on this iteration (loop variables, or values made up while running the body)
 				n = modNote{level: 1, R: n.R, T: n.T}
 			}
 			if ms.add(n) {
@@ -341,6 +345,17 @@ func (e *Engine) loopEnter(fr *frame, li *loopInfo, pred *ssa.BasicBlock, st *St
 		}
 	}
 	e.setRgn(baseRgn + 6000)
+	if os.Getenv("DGV_LOOPDBG") != "" && fr.dry == nil {
+		fmt.Fprintf(os.Stderr, "LOOP %s loop%d: all=%v allPlain=%v cells=%d regions=%d\n", fr.fn.Name(), li.ordinal, ms.all, ms.allPlain, len(ms.cells), len(ms.regions))
+		for i, n := range ms.cells {
+			if i < 12 {
+				fmt.Fprintf(os.Stderr, "   cell R=%s O=%s T=%v\n", c.Show(n.R), c.Show(n.O), n.T)
+			}
+		}
+		for _, n := range ms.regions {
+			fmt.Fprintf(os.Stderr, "   region level=%d R=%s T=%v\n", n.level, c.Show(n.R), n.T)
+		}
+	}
 	if fr.dry != nil {
 		// propagate to the enclosing dry run
 		for _, n := range ms.cells {
@@ -579,16 +594,35 @@ func (e *Engine) loopNames(fr *frame, li *loopInfo) map[string]SVal {
 		}
 	}
 	// source variables via DebugRefs in blocks dominating the head (last one wins), then header phis
+	paramObj := map[types.Object]bool{}
+	for _, p := range fr.fn.Params {
+		if p.Object() != nil {
+			paramObj[p.Object()] = true
+		}
+	}
+	addrOf := map[string]types.Object{} // names bound to the address of an address-taken local
 	for _, b := range fr.fn.Blocks {
 		if !b.Dominates(li.head) || b == li.head {
 			continue
 		}
 		for _, in := range b.Instrs {
 			if d, ok := in.(*ssa.DebugRef); ok {
-				// address-taken locals are exposed as pointers (p.f then reads the current memory)
+				// address-taken locals are exposed as pointers (p.f then reads the current memory);
+				// a later by-value use of the same variable is a stale copy and must not replace the address
 				if id, ok := d.Expr.(*ast.Ident); ok {
+					if paramObj[d.Object()] {
+						continue // a parameter name always denotes the entry value
+					}
+					if obj, bound := addrOf[id.Name]; bound && !d.IsAddr && obj == d.Object() {
+						continue
+					}
+					if d.IsAddr {
+						addrOf[id.Name] = d.Object()
+					} else {
+						delete(addrOf, id.Name)
+					}
 					if v, ok := fr.regs[d.X]; ok {
-						names[id.Name] = SVal{V: v, T: d.X.Type()}
+						names[id.Name] = SVal{V: v, T: d.X.Type(), Addr: d.IsAddr}
 					} else if k, ok := d.X.(*ssa.Const); ok {
 						names[id.Name] = SVal{V: e.constVal(k), T: d.X.Type()}
 					}
@@ -640,6 +674,21 @@ func (e *Engine) loopEnvAll(fr *frame, li *loopInfo, st *State) *specEnv {
 
 func (e *Engine) loopEnv(fr *frame, li *loopInfo, st *State) *specEnv {
 	env := &specEnv{e: e, heap: &st.heap, vars: e.loopNames(fr, li), bound: map[string]*Term{}, rc: e.cur, st: st, ext: st.ext}
+	// a name bound to the address of an address-taken local of non-struct type denotes the variable's
+	// current value (struct-typed ones stay pointers: selectors read the current memory through them)
+	for name, sv := range env.vars {
+		if !sv.Addr {
+			continue
+		}
+		pt, ok := sv.T.Underlying().(*types.Pointer)
+		if !ok {
+			continue
+		}
+		if _, isStruct := pt.Elem().Underlying().(*types.Struct); isStruct {
+			continue
+		}
+		env.vars[name] = SVal{V: e.C.Load(&st.heap, toPtr(sv.V), 0, pt.Elem()), T: pt.Elem()}
+	}
 	if e.cur != nil && e.cur.entry != nil {
 		env.old = &e.cur.entry.heap
 	}
@@ -786,4 +835,16 @@ func (e *Engine) evalHead(fr *frame, li *loopInfo, v ssa.Value, depth int) (Valu
 		}
 	}
 	return nil, false
+}
+
+
+// mentionsNewVar: t contains a variable created after the term with the given ID.
+func mentionsNewVar(t *Term, id int) bool {
+	found := false
+	Walk([]*Term{t}, func(x *Term) {
+		if x.Op == OVar && x.ID > id {
+			found = true
+		}
+	})
+	return found
 }
